@@ -135,5 +135,9 @@ def pretty(obj: Any) -> str:  # pragma: no cover
                 elif name in ('dsep',):
                     output.append(f'{m.group(1)} ')
                 break
+        else:
+            # No token matches here (e.g. `-` or `.`): copy the character so the loop always advances
+            output.append(sel[index])
+            index += 1
 
     return ''.join(output)
